@@ -1,6 +1,6 @@
 (* C12 — async producer: progress of the close cascade. *)
 From Coq Require Import List Arith Bool Lia.
-From SV Require Import C12.Lts C12.LtsProofs C12.Tac C12.Prod C12.ProdProofs C12.ProdSafety C12.ProdTerm C12.ProdTermA C12.ProdTermB.
+From SV Require Import C12.Lts C12.LtsProofs C12.Tac C12.Prod C12.ProdProofs C12.ProdSafety C12.ProdTerm C12.ProdTerm_01 C12.ProdTerm_02 C12.ProdTerm_03.
 Import ListNotations.
 
 Module ProdTT.
